@@ -26,6 +26,9 @@ def ListOfDicts_init (truth : Term → Bool) : Out :=
 /-- the decorators of dataiter/list_of_dicts.py: ListOfDicts.__init__, outermost first -/
 def ListOfDicts_init_decorators : List String := []
 
+/-- the signature of dataiter/list_of_dicts.py: ListOfDicts.__init__: parameters in order, with the source text of their defaults -/
+def ListOfDicts_init_signature : List String := ["self", "dicts=()", "*", "as_is=False"]
+
 /-- dataiter/list_of_dicts.py: ListOfDicts._new (sha256 of the function source: 896a760aaaf7e011) -/
 def ListOfDicts_new (truth : Term → Bool) : Out :=
   let new' : Term := (Term.app ".__class__" [(Term.sym "self"), (Term.sym "dicts"), (Term.app "=as_is" [(Term.sym "True")])]);
@@ -38,6 +41,9 @@ def ListOfDicts_new (truth : Term → Bool) : Out :=
 /-- the decorators of dataiter/list_of_dicts.py: ListOfDicts._new, outermost first -/
 def ListOfDicts_new_decorators : List String := []
 
+/-- the signature of dataiter/list_of_dicts.py: ListOfDicts._new: parameters in order, with the source text of their defaults -/
+def ListOfDicts_new_signature : List String := ["self", "dicts"]
+
 /-- dataiter/list_of_dicts.py: ListOfDicts.__deepcopy__ (sha256 of the function source: 2115d0b9f19d77b6) -/
 def ListOfDicts_deepcopy (truth : Term → Bool) : Out :=
   let new' : Term := (Term.app ".__class__" [(Term.sym "self"), (Term.app "map" [(Term.sym "copy.deepcopy"), (Term.sym "self")]), (Term.app "=as_is" [(Term.sym "True")])]);
@@ -48,12 +54,18 @@ def ListOfDicts_deepcopy (truth : Term → Bool) : Out :=
 /-- the decorators of dataiter/list_of_dicts.py: ListOfDicts.__deepcopy__, outermost first -/
 def ListOfDicts_deepcopy_decorators : List String := []
 
+/-- the signature of dataiter/list_of_dicts.py: ListOfDicts.__deepcopy__: parameters in order, with the source text of their defaults -/
+def ListOfDicts_deepcopy_signature : List String := ["self", "memo=None"]
+
 /-- dataiter/list_of_dicts.py: ListOfDicts.__copy__ (sha256 of the function source: 4d81bfa2b7fe6e21) -/
 def ListOfDicts_copy (truth : Term → Bool) : Out :=
   Out.ret [] (Term.app "._new" [(Term.sym "self"), (Term.sym "self")])
 
 /-- the decorators of dataiter/list_of_dicts.py: ListOfDicts.__copy__, outermost first -/
 def ListOfDicts_copy_decorators : List String := []
+
+/-- the signature of dataiter/list_of_dicts.py: ListOfDicts.__copy__: parameters in order, with the source text of their defaults -/
+def ListOfDicts_copy_signature : List String := ["self"]
 
 /-- dataiter/list_of_dicts.py: ListOfDicts._mark_obsolete (sha256 of the function source: f28eef876f7e4755) -/
 def ListOfDicts_mark_obsolete (truth : Term → Bool) : Out :=
@@ -70,6 +82,9 @@ def ListOfDicts_mark_obsolete (truth : Term → Bool) : Out :=
 /-- the decorators of dataiter/list_of_dicts.py: ListOfDicts._mark_obsolete, outermost first -/
 def ListOfDicts_mark_obsolete_decorators : List String := []
 
+/-- the signature of dataiter/list_of_dicts.py: ListOfDicts._mark_obsolete: parameters in order, with the source text of their defaults -/
+def ListOfDicts_mark_obsolete_signature : List String := ["self"]
+
 /-- dataiter/list_of_dicts.py: ListOfDicts.__getattribute__ (sha256 of the function source: a8de21611f165ea9) -/
 def ListOfDicts_getattribute (truth : Term → Bool) : Out :=
   let value' : Term := (Term.app "super().__getattribute__" [(Term.sym "name")]);
@@ -84,6 +99,9 @@ def ListOfDicts_getattribute (truth : Term → Bool) : Out :=
 /-- the decorators of dataiter/list_of_dicts.py: ListOfDicts.__getattribute__, outermost first -/
 def ListOfDicts_getattribute_decorators : List String := []
 
+/-- the signature of dataiter/list_of_dicts.py: ListOfDicts.__getattribute__: parameters in order, with the source text of their defaults -/
+def ListOfDicts_getattribute_signature : List String := ["self", "name"]
+
 /-- dataiter/deco.py: obsoletes.wrapper (sha256 of the function source: 17886f707cd2e2ec) -/
 def deco_obsoletes_wrapper (truth : Term → Bool) : Out :=
   let value' : Term := (Term.app "function" [(Term.sym "self"), (Term.app "*" [(Term.sym "args")]), (Term.app "=**" [(Term.sym "kwargs")])]);
@@ -93,6 +111,9 @@ def deco_obsoletes_wrapper (truth : Term → Bool) : Out :=
 /-- the decorators of dataiter/deco.py: obsoletes.wrapper, outermost first -/
 def deco_obsoletes_wrapper_decorators : List String := ["functools.wraps(function)"]
 
+/-- the signature of dataiter/deco.py: obsoletes.wrapper: parameters in order, with the source text of their defaults -/
+def deco_obsoletes_wrapper_signature : List String := ["self", "*args", "**kwargs"]
+
 /-- dataiter/deco.py: new_from_generator.wrapper (sha256 of the function source: 0126d48e1ed23c37) -/
 def deco_new_from_generator_wrapper (truth : Term → Bool) : Out :=
   let value' : Term := (Term.app "function" [(Term.sym "self"), (Term.app "*" [(Term.sym "args")]), (Term.app "=**" [(Term.sym "kwargs")])]);
@@ -100,5 +121,8 @@ def deco_new_from_generator_wrapper (truth : Term → Bool) : Out :=
 
 /-- the decorators of dataiter/deco.py: new_from_generator.wrapper, outermost first -/
 def deco_new_from_generator_wrapper_decorators : List String := ["functools.wraps(function)"]
+
+/-- the signature of dataiter/deco.py: new_from_generator.wrapper: parameters in order, with the source text of their defaults -/
+def deco_new_from_generator_wrapper_signature : List String := ["self", "*args", "**kwargs"]
 
 end DI.Gen
